@@ -64,6 +64,9 @@ type Obligation struct {
 	cond   string
 	NDecls int // number of declarations visible (prefix of q.decls)
 	Expect string
+	// model terms for replay, precomputed before the parallel solving phase
+	replayTerms []modelTerm
+	replayDone  bool
 }
 
 type Enc struct {
@@ -85,6 +88,7 @@ type Enc struct {
 	pendingFI []pendingStore
 	autoObls  []*Obligation
 	curSig    *types.Signature
+	unitFuns  map[string]bool
 	frameAllowed map[string][]string // declared modifies targets (entry-state index terms) by heap key
 	frameWhole   map[string]bool
 }
@@ -689,6 +693,12 @@ func (fr *frame) recordNamed(name string, blk *ssa.BasicBlock, v Value, isAddr b
 // name ambiguous (ok=false, ambiguous=true).
 func (fr *frame) resolveNamed(name string, c *ssa.BasicBlock) (d namedDef, ok, ambiguous bool) {
 	ds := fr.namedDefs[name]
+	// a variable that lives in a memory cell is read from the cell
+	for i := len(ds) - 1; i >= 0; i-- {
+		if ds[i].isAddr && ds[i].blk.Dominates(c) {
+			return ds[i], true, false
+		}
+	}
 	idx := -1
 	for i := len(ds) - 1; i >= 0; i-- {
 		if ds[i].blk.Dominates(c) {
@@ -909,6 +919,9 @@ func (e *Enc) alloc(fr *frame, st *State, x *ssa.Alloc) Value {
 	e.zeroInit(st, pt.Elem(), ref)
 	if !x.Heap || capturedReadOnly(x) {
 		e.localRefs = append(e.localRefs, ref)
+	}
+	if x.Comment != "" && !strings.Contains(x.Comment, " ") && x.Comment != "varargs" && x.Comment != "complit" && x.Comment != "new" && x.Comment != "slicelit" && x.Comment != "makeslice" {
+		fr.recordNamed(x.Comment, x.Block(), v, true)
 	}
 	return v
 }
